@@ -122,6 +122,23 @@ def pmap(fn, items, workers=None, chunksize=1):
     return res
 
 
+def job(fn):
+    """Decorator for pmap job functions returning (stats, violations, ...): a Violation raised anywhere
+    inside (e.g. a well-formed language rejected while a fixture is built) becomes a reported violation
+    instead of a harness crash."""
+    import functools
+
+    @functools.wraps(fn)
+    def wrapper(arg):
+        try:
+            return fn(arg)
+        except Violation as v:
+            if v.case is None:
+                v.case = {'job': jsonable(arg)}
+            return ({}, [v.to_json()]) + ((None,) if getattr(fn, '_three', False) else ())
+    return wrapper
+
+
 def rotate(items, seed):
     """VERIF_SEED never selects what is explored, it only rotates visiting order."""
     items = list(items)
